@@ -1,9 +1,296 @@
-import Model.Common
-/-! Oracle handlers for C10 (stub until the property's model exists). -/
-namespace OracleC10
-open Common
+import Model.C10
+import Std.Data.HashSet
+/-!
+Oracle handlers for C10.
 
-def handle (_cmd : String) (_f : List String) : String × String × String :=
-  ("unknown-cmd", "-", "-")
+`C10.batch  mode icount cancelAt sets outcomes plan ringInfo | trace gets`
+
+* **diff** (acceptance): the observed event trace must be a run of the model's transition system
+  (`C10.step`), with the internal `tick` events inserted freely (search over the τ-closure).
+* **judge**: the property statement evaluated on the trace alone (never calls `C10.step`).
+-/
+namespace OracleC10
+open Common C10
+
+/-! ### parsing -/
+
+inductive Tok
+  | call (a : Nat) (idx : List Nat)
+  | rel (as : List Nat)
+  | fin (a : Nat)
+  | cancel | cleanup | watchdog
+  | ret (v : String)
+  | bad (s : String)
+  deriving Repr, BEq, Inhabited
+
+def parseDotList (s : String) : Option (List Nat) :=
+  if s == "" then some [] else (s.splitOn ".").mapM String.toNat?
+
+def parseTok (s : String) : Tok :=
+  if s == "x" then .cancel else if s == "C" then .cleanup else if s == "T" then .watchdog
+  else if s.startsWith "R:" then .ret (s.drop 2).toString
+  else if s.startsWith "c" then
+    match (s.drop 1).toString.splitOn ":" with
+    | [a, idx] => match a.toNat?, parseDotList idx with
+      | some a, some l => .call a l
+      | _, _ => .bad s
+    | _ => .bad s
+  else if s.startsWith "r" then
+    match ((s.drop 1).toString.splitOn "+").mapM String.toNat? with
+    | some l => .rel l
+    | none => .bad s
+  else if s.startsWith "f" then
+    match (s.drop 1).toString.toNat? with
+    | some a => .fin a
+    | none => .bad s
+  else .bad s
+
+def parseTrace (s : String) : List Tok := if s == "-" then [] else (s.splitOn ",").map parseTok
+
+def parseSet (s : String) : Option GetRes :=
+  if s == "E" then some .err else
+  match s.splitOn "/" with
+  | [as, me] => do
+    let l ← parseDotList as
+    let m ← me.toInt?
+    pure (.ok l m)
+  | _ => none
+
+def parseSets (s : String) : Option (List GetRes) :=
+  if s == "-" then some [] else
+  match s.splitOn "*" with
+  | [n, "mod3/0"] => n.toNat?.map fun n => (List.range n).map fun i => GetRes.ok [i % 3] 0
+  | _ => (s.splitOn ";").mapM parseSet
+
+def parseOutcome (s : String) : Option (Nat × Outcome) :=
+  match s.splitOn ":" with
+  | [a, o] => do
+    let a ← a.toNat?
+    let o ← (if o == "o" then some Outcome.ok else if o == "c" then some .client else if o == "s" then some .server else none)
+    pure (a, o)
+  | _ => none
+
+def parseOutcomes (s : String) : Option (List (Nat × Outcome)) :=
+  if s == "-" then some [] else (s.splitOn ",").mapM parseOutcome
+
+def outFn (l : List (Nat × Outcome)) (a : Nat) : Outcome :=
+  match l.find? (·.1 == a) with
+  | some p => p.2
+  | none => .ok
+
+/-! ### acceptance -/
+
+abbrev SS := Std.HashSet St
+
+def threadIdx (s : St) (a : Nat) : Option Nat := s.thr.findIdx? (·.id == a)
+
+/-- all states reachable by internal `tick` events (worklist; the number of states is finite). -/
+partial def closureGo (work : List St) (seen : SS) : SS :=
+  match work with
+  | [] => seen
+  | s :: rest =>
+    let succs := (List.range s.thr.length).filterMap fun k => step s (.tick k)
+    let (work', seen') := succs.foldl (fun (w, sn) s' => if sn.contains s' then (w, sn) else (s' :: w, sn.insert s')) (rest, seen)
+    closureGo work' seen'
+
+def closure (ss : SS) : SS := closureGo ss.toList ss
+
+def mapSS (ss : SS) (f : St → Option St) : SS :=
+  ss.fold (fun acc s => match f s with | some s' => acc.insert s' | none => acc) {}
+
+def quiescent (s : St) : Bool := (List.range s.thr.length).all fun k => (step s (.tick k)).isNone
+
+def canReturn (s : St) : Bool := s.ret.isNone && (s.done ≥ 1 || s.errc.isSome || s.ctx)
+
+def retVal (e : Option Nat) : String :=
+  match e with
+  | some a => s!"e{a}"
+  | none => "enil"
+
+/-- apply one observed token to a set of model states. -/
+def applyTok (ss : SS) : Tok → SS
+  | .call a idx => mapSS ss fun s => do
+      let k ← threadIdx s a
+      let t ← s.thr[k]?
+      if t.todo == idx then step s (.start k) else none
+  | .rel as => as.foldl (fun ss a => mapSS ss fun s => do step s (.ret (← threadIdx s a))) ss
+  | .fin a => mapSS (closure ss) fun s => do
+      let k ← threadIdx s a
+      let t ← s.thr[k]?
+      if t.st == .fin then some s else none
+  | .cancel => mapSS ss fun s => step s .cancel
+  | .cleanup => mapSS (closure ss) fun s => step s .cleanup
+  | .watchdog => mapSS (closure ss) fun s => if quiescent s && !canReturn s then some s else none
+  | .ret v => mapSS (closure ss) fun s =>
+      if v == "nil" then step s .recvDone
+      else if v == "ctx" then step s .recvCtx
+      else match s.errc with
+        | some e => if retVal e == v then step s .recvErr else none
+        | none => none
+  | .bad _ => {}
+
+def showTok : Tok → String
+  | .call a idx => s!"c{a}:" ++ ".".intercalate (idx.map toString)
+  | .rel as => "r" ++ "+".intercalate (as.map toString)
+  | .fin a => s!"f{a}"
+  | .cancel => "x" | .cleanup => "C" | .watchdog => "T"
+  | .ret v => "R:" ++ v
+  | .bad s => "?" ++ s
+
+def acceptFrom (ss : SS) (pos : Nat) : List Tok → String
+  | [] =>
+    -- the harness has waited for everything: the model must be able to end with all goroutines finished
+    let fin := (closure ss).fold (fun b s => b || s.thr.all (·.st == .fin)) false
+    if fin then "-" else "model-cannot-finish"
+  | t :: ts =>
+    let ss' := applyTok ss t
+    if ss'.isEmpty then s!"model-rejects@{pos}:{showTok t}" else acceptFrom ss' (pos + 1) ts
+
+def earlyName : Early → String
+  | .noInstances => "noinst" | .ctx => "ctx" | .get => "get" | .emptyOk => "nil"
+
+def accept (icount : Int) (cancelAt : Option Nat) (gets : List GetRes) (outs : List (Nat × Outcome))
+    (trace : List Tok) (ngets : String) : String :=
+  match prepare fixEmptyKeys icount cancelAt gets with
+  | .error (e, g) =>
+    -- sequential early return: Cleanup once, then the error; nothing else (the harness' own `x` aside)
+    let tr := trace.filter (· != .cancel)
+    let want := (earlyTrace e).map fun ev => match ev with
+      | .cleanup => Tok.cleanup
+      | .ret e => Tok.ret (earlyName e)
+    if tr != want then "model=" ++ ",".intercalate (want.map showTok)
+    else if toString g != ngets then s!"model-gets={g}" else "-"
+  | .ok p =>
+    if toString p.gets != ngets then s!"model-gets={p.gets}" else
+    acceptFrom (Std.HashSet.emptyWithCapacity.insert (initSt p (outFn outs))) 0 trace
+
+/-! ### judge: the property statement on the observed trace -/
+
+structure Key where
+  addrs : List Nat
+  maxErr : Int
+  deriving Repr
+
+structure JSt where
+  calls : List Nat := []          -- replicas whose callback was invoked (with repetitions)
+  released : List Nat := []
+  cancelled : Bool := false
+  returned : Bool := false
+  watchdog : Bool := false
+  cleanups : Nat := 0
+  bad : List String := []
+
+def JSt.flag (j : JSt) (r : String) : JSt := if j.bad.contains r then j else { j with bad := j.bad ++ [r] }
+
+def countOut (outs : List (Nat × Outcome)) (rel : List Nat) (k : Key) (o : Outcome) : Int :=
+  ((k.addrs.filter fun a => rel.contains a && outFn outs a == o).length : Nat)
+
+/-- the key can no longer reach its quorum and the statement obliges an error *now*: failures of one
+family exceed the tolerance, or its last replica has answered without quorum. -/
+def keyFailedNow (outs : List (Nat × Outcome)) (rel : List Nat) (k : Key) : Bool :=
+  let ok := countOut outs rel k .ok
+  let cl := countOut outs rel k .client
+  let sv := countOut outs rel k .server
+  cl > k.maxErr || sv > k.maxErr || (k.addrs.all rel.contains && ok < (k.addrs.length : Int) - k.maxErr)
+
+/-- weakest reading of "the key ends without quorum": it can no longer reach it. -/
+def keyDoomed (outs : List (Nat × Outcome)) (rel : List Nat) (k : Key) : Bool :=
+  countOut outs rel k .client + countOut outs rel k .server > k.maxErr
+
+def keyHasQuorum (outs : List (Nat × Outcome)) (rel : List Nat) (k : Key) : Bool :=
+  countOut outs rel k .ok ≥ (k.addrs.length : Int) - k.maxErr
+
+def expectedIdx (keys : List Key) (a : Nat) : List Nat :=
+  (List.range keys.length).filter fun i => match keys[i]? with
+    | some k => k.addrs.contains a
+    | none => false
+
+def judge (waits : Bool) (icount : Int) (getErr : Bool) (keys : List Key) (outs : List (Nat × Outcome)) (trace : List Tok) : List String :=
+  let selected := (keys.flatMap (·.addrs)).eraseDups
+  let allReleased (j : JSt) : Bool := selected.all j.released.contains
+  -- a return is due: context ended, or a key failed for good, or every replica call has returned
+  let due (j : JSt) : Bool := j.cancelled || keys.any (keyFailedNow outs j.released) || allReleased j
+  -- "immediately": when the harness releases the next replica (it has then waited for the effects of
+  -- all earlier releases, `waits`), an error that was already due must have been returned
+  let checkLate (j : JSt) : JSt :=
+    if waits && !j.returned && !j.watchdog && (j.cancelled || keys.any (keyFailedNow outs j.released))
+    then j.flag "late-return" else j
+  let j := trace.foldl (init := ({} : JSt)) fun j t =>
+    match t with
+    | .call a idx =>
+      let j := if j.cleanups > 0 then j.flag "cleanup-before-calls-finished" else j
+      let j := if !selected.contains a then j.flag "call-unselected-replica" else j
+      let j := if j.calls.contains a then j.flag "replica-called-twice" else j
+      let j := if selected.contains a && idx != expectedIdx keys a then j.flag "call-wrong-indexes" else j
+      { j with calls := a :: j.calls }
+    | .rel as =>
+      let j := checkLate j
+      let j := if j.cleanups > 0 then j.flag "cleanup-before-calls-finished" else j
+      { j with released := j.released ++ as }
+    | .fin _ => j
+    | .cancel => { (checkLate j) with cancelled := true }
+    | .cleanup =>
+      let j := if j.cleanups > 0 then j.flag "cleanup-twice" else j
+      let j := if !(j.calls.all j.released.contains) then j.flag "cleanup-before-calls-finished" else j
+      { j with cleanups := j.cleanups + 1 }
+    | .watchdog =>
+      let j := if !j.returned && (due j || getErr || icount ≤ 0) then j.flag "no-return" else j
+      { j with watchdog := true }
+    | .ret v =>
+      let j := if j.returned then j.flag "returned-twice" else j
+      let j :=
+        if v == "nil" then
+          if getErr || icount ≤ 0 || !(keys.all (keyHasQuorum outs j.released)) then j.flag "success-without-quorum" else j
+        else if v == "ctx" then (if j.cancelled then j else j.flag "ctx-error-without-cancel")
+        else if v == "get" then (if getErr then j else j.flag "unexpected-error")
+        else if v == "noinst" then (if icount ≤ 0 then j else j.flag "unexpected-error")
+        else if v.startsWith "e" && v != "enil" then
+          match (v.drop 1).toString.toNat? with
+          | some a =>
+            let j := if j.released.contains a && outFn outs a != .ok && selected.contains a then j else j.flag "error-not-from-a-replica"
+            if keys.any (keyDoomed outs j.released) then j else j.flag "error-without-failed-key"
+          | none => j.flag "unexpected-error"
+        else if v == "enil" then j.flag "error-not-from-a-replica"
+        else j.flag "unexpected-error"
+      { j with returned := true }
+    | .bad s => j.flag ("bad-token:" ++ s)
+  let j := if !j.returned && !j.watchdog then j.flag "no-return" else j
+  let j := if j.cleanups == 0 then j.flag "cleanup-missing" else j
+  -- every selected replica is called (exactly once, checked above) unless the operation failed before calling anyone
+  let retErr := trace.any fun t => match t with | .ret v => v != "nil" | _ => false
+  let j := if !(j.calls.isEmpty && retErr) && !(selected.all j.calls.contains) then j.flag "call-missing" else j
+  j.bad
+
+/-! ### handler -/
+
+def retClass (trace : List Tok) : String :=
+  match trace.findSome? (fun t => match t with | .ret v => some v | _ => none) with
+  | some v => if v.startsWith "e" && v != "enil" then "err" else v
+  | none => "none"
+
+def handleBatch (f : List String) : String × String × String :=
+  match f with
+  | [mode, icount, cancelAt, sets, outcomes, plan, _ringInfo, trace, ngets] =>
+    match icount.toInt?, parseSets sets, parseOutcomes outcomes with
+    | some ic, some gets, some outs =>
+      let ca : Option Nat := if cancelAt == "-" then none else cancelAt.toNat?
+      let tr := parseTrace trace
+      let diff := accept ic ca gets outs tr ngets
+      let getErr := gets.any (· == .err)
+      let keys := gets.filterMap fun g => match g with | .ok a m => some { addrs := a, maxErr := m : Key } | .err => none
+      let jb := judge (!mode.startsWith "inline") ic getErr keys outs tr
+      let jd := if jb.isEmpty then "-" else ",".intercalate jb
+      let ncalls := (keys.flatMap (·.addrs)).eraseDups.length
+      let early := ic ≤ 0 || getErr || ca.isSome
+      let batches := if plan.contains '+' then "sim" else "seq"
+      let kind := if (_ringInfo.startsWith "real") then "real" else "fake"
+      let nk := if gets.length > 4 then "big" else toString gets.length
+      let tags := s!"mode={mode} ring={kind} keys={nk} calls={ncalls} early={early} cancel={plan.contains 'x' || ca.isSome} plan={batches} ret={retClass tr}"
+      (diff, jd, tags)
+    | _, _, _ => ("bad-input", "-", "-")
+  | _ => ("bad-fields", "-", "-")
+
+def handle (cmd : String) (f : List String) : String × String × String :=
+  if cmd == "C10.batch" then handleBatch f else ("unknown-cmd", "-", "-")
 
 end OracleC10
